@@ -34,7 +34,10 @@ pub const PAYLOAD: [&str; 20] = [
 ];
 pub const SIGLINES: [&str; 6] = ["iQ", "=ab", "x y", "", " -----END PGP SIGNATURE-----", "x-----BEGIN PGP SIGNATURE-----"];
 /// first lines of texts that are NOT signed messages although they look like armour
-pub const UNSIGNED_FIRST: [&str; 4] = ["-----BEGIN PGP SIGNATURE-----", "-----END PGP SIGNATURE-----", "-----BEGIN PGP SIGNED MESSAGE----- ", "-----BEGIN PGP SIGNED MESSAGE-----x"];
+pub const UNSIGNED_FIRST: [&str; 11] = ["-----BEGIN PGP SIGNATURE-----", "-----END PGP SIGNATURE-----", "-----BEGIN PGP SIGNED MESSAGE----- ", "-----BEGIN PGP SIGNED MESSAGE-----x",
+    // near misses of the marker: another letter case, a dash fewer / more at either end, two blanks inside, another armour type
+    "-----begin pgp signed message-----", "----BEGIN PGP SIGNED MESSAGE-----", "------BEGIN PGP SIGNED MESSAGE-----", "-----BEGIN PGP SIGNED MESSAGE----", "-----BEGIN PGP SIGNED MESSAGE------",
+    "-----BEGIN PGP  SIGNED MESSAGE-----", "-----BEGIN PGP MESSAGE-----"];
 pub const APPENDS: [&str; 4] = ["x\n", "\n", " ", "-----BEGIN PGP SIGNATURE-----\n"];
 const M_BEGIN: &str = "-----BEGIN PGP SIGNED MESSAGE-----";
 const M_SIG: &str = "-----BEGIN PGP SIGNATURE-----";
@@ -167,7 +170,7 @@ impl Prop for C19 {
         "fault_enumeration"
     }
     fn rule(&self, _t: Tier) -> String {
-        "message family = (a) one line of 255 / 256 / 257 / 65535 / 65536 / 65537 characters as payload line, signature line or armour header, with every line cut; (b) every sequence of <= 2 armour headers x every sequence of <= 3 (thorough 4) payload lines from 20 templates (two ending in CR, empty, deb822, indented, header look-alike, two-, three- and four-byte characters at byte offsets 0, 1 and 2, NUL, and all three markers behind a letter / blank / tab or followed by a blank) x every sequence of <= 2 signature lines from 6 (incl. an empty line and marker look-alikes); faults, ALL of them per message: no fault, truncation after every line (0..all), every trailing addition from 4, the payload alone and behind 4 armour-like first lines that are not the signed-message marker (unsigned passthrough), and for the sub-family with <= 1 header, <= 2 payload lines, <= 1 signature line every BYTE prefix; the expected result is computed from the construction offsets, never by re-scanning; all cases distinct; non-trivial = every case with a fault".into()
+        "message family = (a) one line of 255 / 256 / 257 / 65535 / 65536 / 65537 characters as payload line, signature line or armour header, with every line cut; (b) three and four signature lines and three armour headers with every line cut; (c) every sequence of <= 2 armour headers x every sequence of <= 3 (thorough 4) payload lines from 20 templates (two ending in CR, empty, deb822, indented, header look-alike, two-, three- and four-byte characters at byte offsets 0, 1 and 2, NUL, and all three markers behind a letter / blank / tab or followed by a blank) x every sequence of <= 2 signature lines from 6 (incl. an empty line and marker look-alikes); faults, ALL of them per message: no fault, truncation after every line (0..all), every trailing addition from 4, the payload alone and behind 4 armour-like first lines that are not the signed-message marker (unsigned passthrough), and for the sub-family with <= 1 header, <= 2 payload lines, <= 1 signature line every BYTE prefix; the expected result is computed from the construction offsets, never by re-scanning; all cases distinct; non-trivial = every case with a fault".into()
     }
     fn bounds(&self, t: Tier) -> Value {
         json!({"headers": HEADERS, "payload_lines": PAYLOAD, "signature_lines": SIGLINES, "appends": APPENDS, "max_headers": 2, "max_payload_lines": t.pick(3, 4), "max_signature_lines": 2})
@@ -196,6 +199,24 @@ impl Prop for C19 {
                     }
                     f(&C19Case { fault: Fault::Append(0), ..base.clone() });
                 }
+            }
+        }
+        // three and four signature lines, three armour headers (over the first three / two templates), every line cut
+        if shard == 0 {
+            let mut long_sigs: Vec<Vec<usize>> = vec![];
+            for n in [3usize, 4] {
+                crate::kdev::product(&vec![3usize; n], &mut |v| long_sigs.push(v.to_vec()));
+            }
+            let mut long_heads: Vec<Vec<usize>> = vec![];
+            crate::kdev::product(&[2, 2, 2], &mut |v| long_heads.push(v.to_vec()));
+            for (h, sg) in long_sigs.iter().map(|sg| (vec![], sg.clone())).chain(long_heads.iter().map(|h| (h.clone(), vec![0usize]))) {
+                let base = C19Case { headers: h, payload: vec![3, 0], sig: sg, fault: Fault::None };
+                let m = wrap(&base);
+                f(&base);
+                for nl in 0..m.n_lines {
+                    f(&C19Case { fault: Fault::CutLines(nl), ..base.clone() });
+                }
+                f(&C19Case { fault: Fault::Append(1), ..base.clone() });
             }
         }
         for payload in seqs(PAYLOAD.len(), t.pick(3, 4)) {
